@@ -77,6 +77,10 @@ var (
 
 var disturber *formula.SourceCode
 
+var usedRunner *formula.Runner
+
+var compactCache = map[string]string{}
+
 // EvalText parses and evaluates text against data (nil = no map).
 func EvalText(text string, data map[string]interface{}) EvalOut {
 	if Perturb != nil {
@@ -121,9 +125,25 @@ func EvalText(text string, data map[string]interface{}) EvalOut {
 		if c := out.String(); c != a {
 			return EvalOut{Panic: fmt.Sprintf("the value returned by the first evaluation of %q was %s and reads %s after later evaluations", text, a, c)}
 		}
+		// A runner that has served many other formulas and data maps before (every earlier call of this
+		// function) is as good as a new one once it is handed this data.
+		if usedRunner == nil {
+			usedRunner = formula.NewRunner()
+		}
+		usedRunner.SetThis(data)
+		if c := Eval(usedRunner, context.Background(), p.Src.Expression).String(); c != a {
+			return EvalOut{Panic: fmt.Sprintf("%q evaluates to %s on a new runner, but to %s on a runner that evaluated other formulas before and was then given the same data", text, a, c)}
+		}
 		// Spacing is not part of the meaning: the same tokens with every optional separator removed
 		// (`a?.5:b`, `x||!y`, `1- -2`) parse and evaluate to the same outcome.
-		if ct, ok := ref.CompactText(text); ok && ct != text {
+		ct, ok := compactCache[text]
+		if !ok {
+			ct, _ = ref.CompactText(text) // "" when the text does not tokenise cleanly
+			if len(compactCache) < 1<<14 {
+				compactCache[text] = ct
+			}
+		}
+		if ct != "" && ct != text {
 			q := Parse([]byte(ct))
 			if !q.OK() {
 				return EvalOut{Panic: fmt.Sprintf("%q is accepted, but the same tokens without optional spaces, %q, are rejected: %v %v", text, ct, q.Err, q.Panic)}
